@@ -7,7 +7,7 @@ Scenarios ==
       p \in 0..104, v \in MarginVals, b \in {<< <<-1, 1>>, <<1, 1>> >>, << <<-1, 2>>, <<3, 4>> >>}}
   \cup
   {[kind |-> "turnout", pev |-> p, v |-> v, e |-> e, lb |-> b[1], ub |-> b[2]] :
-      p \in 0..104, v \in TurnoutVals, e \in {<<1, 2>>, <<1, 10>>, <<1, 4>>}, b \in {<< <<1, 2>>, <<3, 2>> >>, << <<1, 4>>, <<2, 1>> >>}}
+      p \in 0..104, v \in TurnoutVals, e \in {<<1, 2>>, <<1, 10>>, <<1, 4>>, <<3, 5>>}, b \in {<< <<1, 2>>, <<3, 2>> >>, << <<1, 4>>, <<2, 1>> >>}}
 \* the estimator clips the observed margin into the naive range before it is used: scenarios outside it are excluded
 InRange(s) == s.kind = "margin" => RLe(s.lb, s.v) /\ RLe(s.v, s.ub)
 Init == sc \in {s \in Scenarios : InRange(s)} /\ BInitRest
